@@ -219,13 +219,23 @@ def parse_text(text, mode):
 
 
 def _gbw(t):
+    """the SeqFeatures `collection_to_genbank` hands to Bio.SeqIO.write (the call is intercepted: no text is produced),
+    so that the flavour -> translation table choice and the loop over the collection are the library's own"""
+    import inscripta.biocantor.io.genbank.writer as W
+    import types
     flavor, force, trans = FLAVOR[t.next()], t.next() == "1", t.next() == "1"
     seq, coll = dec_coll(t)
     ac = build(coll, seq)
-    table = TranslationTable.PROKARYOTE if flavor == GenbankFlavor.PROKARYOTIC else TranslationTable.DEFAULT
-    feats = []
-    for child in ac:
-        feats.extend(gene_to_feature(child, flavor, force, table, trans))
+    captured = []
+    real = W.SeqIO
+    W.SeqIO = types.SimpleNamespace(write=lambda recs, handle, format: captured.extend(recs))
+    try:
+        W.collection_to_genbank([ac], io.StringIO(), genbank_type=flavor, force_strand=force, update_translations=trans)
+    finally:
+        W.SeqIO = real
+    if len(captured) != 1:
+        raise AssertionError(f"{len(captured)} records")
+    feats = captured[0].features
     return "ok " + " ".join([str(len(feats))] + [rec_of_feature(f) for f in feats])
 
 
@@ -527,9 +537,8 @@ def check_pipeline(flavor, trans, seq, coll):
     sorted_file = position_sorted(gene_feats)
     got_by_mode = {}
     for mode in "SLH":
-        claimed = unique_tags if mode != "S" else sorted_file
-        if mode == "H" and not unique_tags and not sorted_file:
-            claimed = False
+        # Sorted: position-sorted file; LocusTag: unique tags; Hybrid: either (duplicate tags go to the Sorted parser)
+        claimed = {"S": sorted_file, "L": unique_tags, "H": unique_tags or sorted_file}[mode]
         try:
             got = [observed_gene(d) for d in genes_of_records(parse_text(text, mode))]
         except Exception as e:  # noqa
